@@ -161,7 +161,10 @@ func (f *FormattedProvider) SetStoreConfig(name string, config spi.StoreConfigur
 func (f *FormattedProvider) GetStoreConfig(name string) (spi.StoreConfiguration, error) {
 	storeName := strings.ToLower(name)
 
+	f.lock.RLock()
 	openStore := f.openStores[storeName]
+	f.lock.RUnlock()
+
 	if openStore == nil {
 		return spi.StoreConfiguration{}, spi.ErrStoreNotFound
 	}
@@ -193,12 +196,12 @@ func (f *FormattedProvider) GetStoreConfig(name string) (spi.StoreConfiguration,
 
 // GetOpenStores returns all currently open stores.
 func (f *FormattedProvider) GetOpenStores() []spi.Store {
+	f.lock.RLock()
+	defer f.lock.RUnlock()
+
 	openStores := make([]spi.Store, len(f.openStores))
 
 	var counter int
-
-	f.lock.RLock()
-	defer f.lock.RUnlock()
 
 	for _, openStore := range f.openStores {
 		openStores[counter] = openStore
